@@ -459,6 +459,13 @@ class PteraTransformer(NodeTransformer):
                         lineno=orig.lineno,
                         col_offset=orig.col_offset,
                     ),
+                    # Python looks the container up before it evaluates
+                    # the index: if it is not set, this is where it fails
+                    ast.Expr(
+                        value=ast.Name(id=target.value.id, ctx=ast.Load()),
+                        lineno=orig.lineno,
+                        col_offset=orig.col_offset,
+                    ),
                     ast.Assign(
                         targets=[ast.Name(id=var_index, ctx=ast.Store())],
                         value=slc,
